@@ -16,7 +16,7 @@ PID = "C20"
 LEVEL = "exploration"
 RULE = (
     "Hypothesis generates (1) a small sub-project (profile W) simulated with a generated absence list (incl. steps "
-    "beyond its end) and a unit time from {1,2,3,5,10,15,30,60 min, 1 day}, written with write_simple_json; also "
+    "beyond its end) and a unit time from {1,2,3,5,10,15,30,60 min, 1 day}, optionally edited by an insert_absence_time_list whose list overlaps the steps already present, written with write_simple_json; also "
     "never-simulated and FINISHED_FAILURE variants; (2) a parent model (profile W, other unit time, parent absence "
     "list, both auto-task flags) in which one task at a generated position (0-2 FS/SS predecessors, any successors) "
     "is a BaseSubProjectTask configured from that file (remove_absence_time_list on/off). Oracle: default_work_amount "
@@ -62,6 +62,10 @@ def _case(draw):
             parent["deps"].append(e)
     u_sub = draw(st.sampled_from(UNITS_MIN))
     u_par = draw(st.sampled_from(UNITS_MIN))
+    insert = draw(st.one_of(st.none(), st.none(), st.lists(st.integers(0, 12), min_size=1, max_size=4)))
+    if insert is not None:
+        # an edited result: keep the run's own absence steps early, so that they lie inside the run
+        sub["opts"]["abs"] = draw(st.lists(st.integers(0, 4), unique=True, min_size=1, max_size=3))
     return {
         "sub": sub,
         "stage": stage,
@@ -70,6 +74,8 @@ def _case(draw):
         "u_sub": u_sub,
         "u_par": u_par,
         "rm_abs": draw(st.booleans()),
+        # the saved result may have been edited first: insert_absence_time_list(B), B overlapping the steps already present
+        "insert": insert,
     }
 
 
@@ -102,6 +108,17 @@ def check(case):
         S.simulate(ps, dict(sub["opts"], max_time=200))
     elif stage == "failure":
         S.simulate(ps, dict(sub["opts"], max_time=1))
+    extra_abs = []
+    n_run = len(ps.cost_list)
+    if stage == "ok" and case.get("insert") and int(ps.status) == 1 and all(a < n_run for a in sub["opts"]["abs"]):
+        # (a result whose absence list names steps beyond its end is not edited here: pDESy does not shift absence
+        # indices on insert, so such an entry would start to point at a real step - outside what C20 states)
+        n0 = len(ps.cost_list)
+        present = list(ps.absence_time_list)
+        B = sorted(set(case["insert"]) | set(present[:1]))  # always overlaps a step that is already present
+        ps.insert_absence_time_list(list(B))
+        res.cls("sub_result_edited_by_insert")
+        extra_abs = [b for b in B if b not in present]
     path = S.tmp_path("c20_sub.json")
     ps.write_simple_json(path)
     status = int(ps.status)
@@ -135,7 +152,8 @@ def check(case):
         return res
 
     n_sub = len(ps.cost_list)
-    inside = sum(1 for a in set(sub["opts"]["abs"]) if a < n_sub)
+    # absence steps inside the saved result: those of the run itself plus the inserted ones
+    inside = sum(1 for a in set(sub["opts"]["abs"]) if a < n_run) + (n_sub - n_run)
     D = n_sub - inside if case["rm_abs"] else n_sub
     res.cls("sub_absence_inside", inside > 0)
     res.cls("sub_absence_beyond_end", any(a >= n_sub for a in sub["opts"]["abs"]))
